@@ -15,8 +15,8 @@ def run(ctx, intensify=False):
     shards = ([(ctx.seed, [n], "assign") for n in names] + [(ctx.seed, [n], "construct") for n in names]
               + [(ctx.seed + 2, [n], "noop-first") for n in names]
               + [(ctx.seed + 3, [n], "listops") for n in ("step", "uj", "up", "sys")])
-    if ctx.tier == "thorough" or intensify:
-        shards += [(ctx.seed + 1, [n], "grouped") for n in names]
+    # … after a *real* change of an object of another class (the allowed lists are looked up per changed object)
+    shards += [(ctx.seed + 1, [n], "grouped") for n in names]
     outs = ctx.pmap(kvalid.shard, shards)
     results = [r for o in outs for r in o]
     res.violations = kvalid.violations_of(results)
